@@ -1130,6 +1130,10 @@ class Process(StateMachine, persistence.Savable, metaclass=ProcessStateMachineMe
             # Already pausing
             return self._pausing
 
+        if self._killing is not None:
+            # About to be killed at the end of this step: a pause must not replace the pending kill
+            return False
+
         if self._stepping:
             # Ask the step function to pause by setting this flag and giving the
             # caller back a future
